@@ -17,7 +17,6 @@ import (
 	"0chain.net/chaincore/node"
 	"0chain.net/chaincore/transaction"
 	"0chain.net/core/encryption"
-	"0chain.net/smartcontract/faucetsc"
 	"0chain.net/smartcontract/minersc"
 	"0chain.net/smartcontract/storagesc"
 	"0chain.net/smartcontract/zcnsc"
@@ -58,7 +57,7 @@ func SCOf(kind string) string {
 	return ""
 }
 
-// Provider tags: <kind letter><n>, e.g. b1, v1, m1, s1, a1. The delegate wallet of provider X is client "X-dw".
+// Cl maps a client tag to its deterministic identity ("owner" is the contract owner of sc.yaml).
 func Cl(tag string) engine.Client {
 	if tag == "owner" {
 		return Owner
@@ -111,70 +110,11 @@ func setup() {
 	})
 }
 
-// New builds a genesis with all contract configurations, funds the given clients and the contract wallets.
-func New(funded []string, each currency.Coin, forks bool) (*World, error) {
-	setup()
-	bal := map[string]currency.Coin{
-		faucetsc.ADDRESS:  1e15,
-		storagesc.ADDRESS: 1e15,
-		minersc.ADDRESS:   1e15,
-		zcnsc.ADDRESS:     1e15,
-		OwnerID:           each,
-	}
-	for _, t := range funded {
-		bal[Cl(t).ID] = each
-	}
-	w, err := engine.NewWorld(bal, func(sctx *cstate.StateContext) error {
-		for _, f := range []func() error{
-			func() error { return storagesc.InitPartitions(sctx) },
-			func() error { return faucetsc.InitConfig(sctx) },
-			func() error { return minersc.InitConfig(sctx) },
-			func() error { return storagesc.InitConfig(sctx) },
-			func() error { return zcnsc.InitConfig(sctx) },
-		} {
-			if err := f(); err != nil {
-				return err
-			}
-		}
-		if forks {
-			for _, n := range []string{"demeter", "electra"} {
-				if _, err := sctx.InsertTrieNode(cstate.NewHardFork(n, 0).GetKey(), cstate.NewHardFork(n, 0)); err != nil {
-					return err
-				}
-			}
-		}
-		return nil
-	})
-	if err != nil {
-		return nil, err
-	}
-	sw := &World{W: w, Nonce: map[string]int64{}, Names: map[string]string{}}
-	for _, t := range append([]string{"owner"}, funded...) {
-		sw.Name(Cl(t).ID, "acct:"+t)
-	}
-	sw.Names[storagesc.ADDRESS] = "acct:storagesc"
-	sw.Names[minersc.ADDRESS] = "acct:minersc"
-	sw.Names[zcnsc.ADDRESS] = "acct:zcnsc"
-	sw.Names[faucetsc.ADDRESS] = "acct:faucetsc"
-	return sw, nil
-}
-
 // Name registers a readable name for a raw path (client ids are stored under the id itself).
 func (w *World) Name(path, name string) { w.Names[path] = name }
 
 // NameKey registers a readable name for a contract storage key (stored under the hash of the key).
 func (w *World) NameKey(key, name string) { w.Names[encryption.Hash(key)] = name }
-
-// NameIDs registers the per-id keys of all provider kinds for the client tag (so that a record created under an
-// unexpected id is still reported by name).
-func (w *World) NameIDs(tag string) {
-	id := Cl(tag).ID
-	w.Name(id, "acct:"+tag)
-	for _, k := range Kinds {
-		w.NameKey(k+":stakepool:"+id, "sp:"+k+":"+tag)
-	}
-	w.NameKey("provider:"+id, "prov:"+tag)
-}
 
 // Call sends one contract transaction from c (next nonce of c) through the real Chain.UpdateState.
 func (w *World) Call(c engine.Client, sc, fn, input string, value currency.Coin) Result {
